@@ -101,8 +101,19 @@ def resolve(f, table=None):
     a = {"evaluator": ev, "ctx_type": ctx_ty, "ctx_short": ctx_base.split("::")[-1],
          "ctx_reference": role["reference"], "ctx_symbol": role["symbol"], "ctx_call": role["call_function"],
          "role_names": {f.bodies[v]["name"]: k for k, v in role.items()}}
-    a["rs_call"] = one([q for q in tree_callees(f, a["ctx_call"]) if self_of(f, q) == "ruleset::RuleSet"], "RuleSet method called by the context's function call")
-    a["uf_call"] = one([q for q in tree_callees(f, a["rs_call"]) if self_of(f, q) == "function::UserFunctions"], "UserFunctions method called by RuleSet")
+    # the route of a user-function call from the context down to the function table: the UserFunctions method that
+    # takes the cache by `&mut`, reached directly or through one RuleSet method
+    def takes_cache(q):
+        b_ = f.bodies[q]
+        return self_of(f, q) == "function::UserFunctions" and any(f.ty_s(b_["locals"][i]["ty"]).startswith("&mut ") for i in range(2, b_["arg_count"] + 1))
+    direct = [q for q in tree_callees(f, a["ctx_call"]) if takes_cache(q)]
+    via = [(r, q) for r in tree_callees(f, a["ctx_call"]) if self_of(f, r) == "ruleset::RuleSet" for q in tree_callees(f, r) if takes_cache(q)]
+    if len(direct) == 1 and not via:
+        a["rs_call"] = None
+        a["uf_call"] = direct[0]
+    else:
+        a["rs_call"] = one([r for r, q in via], "RuleSet method called by the context's function call")
+        a["uf_call"] = one([q for r, q in via], "UserFunctions method called by RuleSet")
     a["uf_get"] = one([q for q in tree_callees(f, a["uf_call"]) if self_of(f, q) == "function::UserFunctions" and q != a["uf_call"]], "function lookup used by UserFunctions::call")
     a["rs_symbol"] = one([q for q in tree_callees(f, a["ctx_symbol"]) if self_of(f, q) == "ruleset::RuleSet"], "RuleSet method called by the context's symbol lookup")
     a["symbols_get"] = one([q for q in tree_callees(f, a["rs_symbol"]) if self_of(f, q) == "symbol::Symbols"], "Symbols method called by RuleSet's symbol lookup")
